@@ -97,6 +97,16 @@ func (k *zzKeeper) count(key string) int {
 	return c
 }
 
+func (k *zzKeeper) lastCall(prefix string) time.Duration {
+	var at time.Duration
+	for _, x := range k.calls {
+		if strings.HasPrefix(x.kind+"|", prefix) {
+			at = x.at
+		}
+	}
+	return at
+}
+
 func (k *zzKeeper) countSuffix(prefix, suffix string) int {
 	c := 0
 	for _, x := range k.calls {
@@ -929,6 +939,12 @@ func zzCheckRouting(r *sim.Run, w *zzNet, m *zzMinerScript, fresh, stalled *zzTa
 				}
 				if isBehind && c == 0 && !w.faults && w.intact(n) && n.keeper.sid() == tk.space {
 					r.Fail("C17/task-not-delivered/"+tk.kind, "targeted task %s never reached %s", tk.id.String()[:8], n.name)
+				}
+				// the answer the keeper produced reaches the waiter, who went on reading for seconds
+				if isBehind && c == 1 && !w.faults && w.intact(n) && n.keeper.sid() == tk.space && len(tk.got) == 0 {
+					if at := n.keeper.lastCall(tk.kind + "|"); tk.removedAt > at+3*time.Second {
+						r.Fail("C17/report-lost/"+tk.kind, "the keeper of %s answered task %s at %.2fs, the waiter read until %.2fs and never received the report", n.name, tk.id.String()[:8], at.Seconds(), tk.removedAt.Seconds())
+					}
 				}
 			}
 		}
